@@ -362,16 +362,19 @@ def check_sibling_bins(ctx):
 
 # --------------------------------------------------------------- EXC-ESC ---
 
-def parse_action_roots(program):
+ACTION_SETTERS = ('set_parse_action', 'setParseAction', 'add_parse_action',
+                  'addParseAction')
+FAIL_SETTERS = ('set_fail_action', 'setFailAction')
+
+
+def parse_action_roots(program, setters=ACTION_SETTERS):
     '''Function values occurring in the arguments of set_parse_action(...)
-    calls of grammar.py.'''
+    (or set_fail_action) calls of grammar.py.'''
     mod = program.module(GRAMMAR)
     roots, n_reg = [], 0
     dummy = next(iter(mod.functions.values()), None)
     for node in ast.walk(mod.tree):
-        if isinstance(node, ast.Call) and call_name(node) in (
-                'set_parse_action', 'setParseAction', 'add_parse_action',
-                'addParseAction'):
+        if isinstance(node, ast.Call) and call_name(node) in setters:
             n_reg += 1
             for arg in node.args:
                 for sub in ast.walk(arg):
@@ -393,9 +396,16 @@ def check_exc_esc(ctx):
     ctx.floor('EXC-ESC-roots', len(roots), 10, 'repo functions used as '
               'parse actions')
     ana = ExcAnalysis(program, tainted_modules={SCAN}, by_unique_name=True)
-    ana.special_calls['parseString'] = (
-        roots, {'IndexError': 'ParseException'} if converts else {},
-        'parse action')
+    # fail actions are called by pyparsing from its `except
+    # ParseBaseException` clause, outside the wrapper that converts the
+    # IndexError of parse actions: whatever they raise propagates as it is
+    fail_roots, n_fail = parse_action_roots(program, FAIL_SETTERS)
+    ctx.stats['fail_action_registrations'] = n_fail
+    ctx.stats['fail_action_roots'] = len(fail_roots)
+    ana.special_calls['parseString'] = [
+        (roots, {'IndexError': 'ParseException'} if converts else {},
+         'parse action'),
+        (fail_roots, {}, 'fail action')]
     ana.special_calls['parse_string'] = ana.special_calls['parseString']
     ana.boundary[f'{PARSE}:ParseResult.__init__'] = (
         'post-processing of a successfully parsed edition: the raise sites '
